@@ -140,6 +140,17 @@ Theorem C11_sweeps_cover_every_bond_once :
 Proof. intros c H. split; [intros i; apply sweeps_cover_every_bond; exact H|apply sweeps_touch_nbonds; exact H]. Qed.
 Print Assumptions C11_sweeps_cover_every_bond_once.
 
+(* except on odd periodic chains the gates of one sweep act on pairwise disjoint
+   sites, hence commute: merging adjacent sweeps of the same direction (the queue,
+   the normal form `normr` above) does not change the operator that is applied.
+   On odd periodic chains (0,1) and (L-1,0) share a site (property: first order only). *)
+Theorem C11_sweep_gates_act_on_disjoint_sites :
+  forall c, 2 <= cL c ->
+  NoDup (sites_of_bonds (bonds c Left))
+  /\ ((cCyc c = true -> (cL c) mod 2 = 0) -> NoDup (sites_of_bonds (bonds c Right))).
+Proof. intros c H. split; [apply left_sweep_gates_disjoint; exact H|apply right_sweep_gates_disjoint; exact H]. Qed.
+Print Assumptions C11_sweep_gates_act_on_disjoint_sites.
+
 (* LocalHamGen: for every graph (no self loops; every site named by a key),
    every local dimension and every pair of configurations, the matrix element of
    the sum of the stored pair terms equals that of sum(H2) + sum(H1): single-site
